@@ -21,6 +21,11 @@ func (c claim) in(h racHistory, verifier string) map[string]interface{} {
 
 // claimClass: discriminating predicate for findings (C03): what is wrong with the claim.
 func claimClass(c claim) string {
+	for _, p := range c.proof {
+		if p == (Hash{}) {
+			return "proof-contains-the-all-zero-hash"
+		}
+	}
 	seen := map[uint64]bool{}
 	for _, t := range c.targets {
 		if seen[t] {
@@ -75,7 +80,7 @@ func checkSound(res *racResult, w *racWorld, h racHistory, placed map[uint64]Has
 
 func TestRAC_C03(t *testing.T) {
 	res := newRacResult("C03")
-	cfgs := []mapCfg{{true, 63}, {true, 0}}
+	cfgs := []mapCfg{{Full: true, TotalRows: 63}, {Full: true, TotalRows: 0}}
 	maxLeaves, maxBlocks := 4, 2
 	maxProof2 := 1
 	if res.thorough() {
@@ -107,14 +112,16 @@ func TestRAC_C03(t *testing.T) {
 			}
 			alpha = append(alpha, Hash{0xFA, 0xCE})
 			maxp := (uint64(2) << rows)
+			// proof hashes may be anything, including the all-zero hash (only the claimed hashes are non-zero)
+			palpha := append(append([]Hash{}, alpha...), Hash{})
 			var proofs [][]Hash
 			proofs = append(proofs, nil)
-			for _, a := range alpha {
+			for _, a := range palpha {
 				proofs = append(proofs, []Hash{a})
 			}
 			var proofs2 [][]Hash
-			for _, a := range alpha {
-				for _, b := range alpha {
+			for _, a := range palpha {
+				for _, b := range palpha {
 					proofs2 = append(proofs2, []Hash{a, b})
 				}
 			}
